@@ -577,7 +577,7 @@ Section Writer.
 
   (* ---------- add_directory / add_symlink *)
   Definition ends_sep (n : bytes) : bool :=
-    match rev n with b :: _ => Byte.eqb b x2f || Byte.eqb b x5c | [] => false end.
+    match rev_append n [] with b :: _ => Byte.eqb b x2f || Byte.eqb b x5c | [] => false end.
 
   Definition add_directory (s : wstate) (name : bytes) (o : wopts) : wstate * res unit :=
     let o' := with_stored (with_perm o 493 16384) in               (* 0o755 | 0o40000 *)
